@@ -10,6 +10,7 @@ import (
 	"sync"
 	"sync/atomic"
 	"time"
+	"unsafe"
 )
 
 // C14 — Workers. Encoding shared with checker/ad_workers.ml.
@@ -27,6 +28,10 @@ import (
 //	      out: 0 tag value err (Call returned) | 1 (panicked) | 2 (Wait returned) | 3 n (Count)
 //	out   1 = "some interleaving of the model's internal steps with these actions ends in a quiescent state with
 //	      exactly this observation" (the adapter tracks the SET of model states compatible with the history so far)
+//
+// C14L (lock-queue choreography): forces the ORDER of three critical sections on Workers.mutex — last worker exits
+// (count 0, Broadcast), a new Call spawns a worker, and only then the woken Wait re-acquires the mutex — and checks that
+// Wait has not returned while that worker's function is still held by its gate. See c14WaitOrder.
 //
 // C14K2 (free-running bursts): many concurrent Calls with random counts, no gates; property monitors evaluated by the
 // harness (MONITOR lines) plus one `F c14_burst` record per burst compared with the model's terminal state.
@@ -49,6 +54,18 @@ func init() {
 		hangs := 0
 		for i := 0; i < h.n && hangs < 3; i++ {
 			if !c14GatedCase(h, i) {
+				hangs++
+			}
+		}
+	})
+	register("C14L", func(h *hctx) {
+		if !c14MutexLayoutOK() {
+			h.count("c14l_skipped_mutex_layout", 1)
+			return
+		}
+		hangs := 0
+		for i := 0; i < h.n && hangs < 2; i++ {
+			if !c14WaitOrderCase(h, i) {
 				hangs++
 			}
 		}
@@ -475,4 +492,219 @@ func c14Burst(h *hctx, id int) bool {
 	}
 	h.line("F c14_burst k2-%d-%d %s | %d %d %d %d", h.seed, id, ints(ks), own, once, c1, c2)
 	return !hung
+}
+
+// ---------------------------------------------------------------------------------------------------- C14L
+
+// sync.Mutex internals (Go 1.18 .. 1.23: struct { state int32; sema uint32 }; state = waiters<<3 | starving<<2 | woken<<1 |
+// locked). Read ONLY to verify the preconditions of the choreography (how many goroutines are queued on Workers.mutex,
+// whether the mutex is in starvation mode); when the layout check fails the scenario is skipped, never reported.
+const (
+	c14MuLocked   = 1
+	c14MuStarving = 4
+	c14MuShift    = 3
+)
+
+func c14MuState(m *sync.Mutex) int32 { return atomic.LoadInt32((*int32)(unsafe.Pointer(m))) }
+
+func c14MutexLayoutOK() bool {
+	if unsafe.Sizeof(sync.Mutex{}) != 8 {
+		return false
+	}
+	var m sync.Mutex
+	if c14MuState(&m) != 0 {
+		return false
+	}
+	m.Lock()
+	if c14MuState(&m) != c14MuLocked {
+		return false
+	}
+	queued := make(chan struct{})
+	go func() { m.Lock(); m.Unlock(); close(queued) }()
+	ok := c14Until(50*time.Millisecond, func() bool { return c14MuState(&m) == c14MuLocked|1<<c14MuShift })
+	m.Unlock()
+	<-queued
+	return ok && c14MuState(&m) == 0
+}
+
+func c14Until(d time.Duration, cond func() bool) bool {
+	end := time.Now().Add(d)
+	for !cond() {
+		if time.Now().After(end) {
+			return false
+		}
+		runtime.Gosched()
+	}
+	return true
+}
+
+// One case = up to 3 repetitions of the choreography; a violation is reported only if 3 consecutive repetitions in
+// which the forced order was achieved (all preconditions verified) ALL show it. Returns false on a hang.
+func c14WaitOrderCase(h *hctx, id int) bool {
+	viol := 0
+	var last [3]int
+	for rep := 0; rep < 3; rep++ {
+		achieved, res, hung := c14WaitOrder(h)
+		if hung {
+			h.line("MONITOR C14 hang in the Wait-order choreography (a Call or Wait did not return within 2s): case l-%d-%d", h.seed, id)
+			return false
+		}
+		if !achieved {
+			h.count("c14l_order_not_achieved", 1)
+			return true
+		}
+		h.count("c14l_order_achieved", 1)
+		last = res
+		if res[1] == 0 {
+			if viol > 0 {
+				h.count("c14l_transient_disagreement", viol)
+			}
+			break
+		}
+		viol++
+	}
+	if viol == 3 {
+		h.line("MONITOR C14 Wait returned while a worker spawned before its wake-up is still running (count=%d): "+
+			"3 of 3 repetitions, forced order worker-exit < Call < woken Wait verified on Workers.mutex: case l-%d-%d", last[0], h.seed, id)
+	}
+	// program: Call(1) ; Wait ; Call(1) -- result: Count(), Wait returned?, functions running, at the final quiescent point
+	h.line("F c14_wait_order l-%d-%d 1 0 1 | %d %d %d", h.seed, id, last[0], last[1], last[2])
+	return true
+}
+
+// c14WaitOrder runs the choreography once.
+//
+//  1. Call(1, f1), f1 held by a gate: one worker, count = 1. A goroutine parks in w.Wait() (confirmed: quiescent, one
+//     goroutine in sync.Cond.Wait).
+//  2. The harness locks w.mutex. A helper X queues on it (waiters = 1); f1's gate is opened: the worker finishes f1 and
+//     queues for its loop-head section (waiters = 2); Call(1, f2) is started, f2 gated: it queues (waiters = 3). Each
+//     is confirmed queued (waiter count in the mutex word) before the next is started, so the queue is X, worker, Call.
+//  3. After > 1 ms the harness unlocks and immediately re-locks (barging past the woken X): X, having waited > 1 ms and
+//     finding the mutex taken, switches it to STARVATION MODE and re-queues at the front (verified: starving bit set,
+//     waiters = 3). From here sync.Mutex hands ownership over in FIFO order, arriving goroutines do not spin or barge
+//     and queue at the tail (documented behaviour of sync.Mutex, sync/mutex.go "Mutex fairness"; the monitor TRUSTS it,
+//     and the 3-repetitions rule guards against surprises).
+//  4. The harness unlocks: X, then the worker's section (queue empty: count-- = 0, Broadcast: the woken waiter queues
+//     LAST, exit), then the Call's section (count = 1, new worker spawned), then the waiter: it must see count = 1 and
+//     park again. f2 starts and is held by its gate.
+//  5. Quiescence. Wait must NOT have returned (theorem C14_wait_returns_at_zero: its return step is enabled only at
+//     count = 0; the model run for exactly this order has it disabled).
+//
+// res = {Count(), 1 if Wait returned, functions running}.
+func c14WaitOrder(h *hctx) (achieved bool, res [3]int, hung bool) {
+	w := new(Workers)
+	gate1, gate2 := make(chan struct{}), make(chan struct{})
+	started1, started2 := make(chan struct{}), make(chan struct{})
+	done1, done2, waited, xdone := make(chan struct{}), make(chan struct{}), make(chan struct{}), make(chan struct{})
+	var running atomic.Int64
+	go func() {
+		w.Call(1, func() (interface{}, error) {
+			running.Add(1)
+			close(started1)
+			<-gate1
+			running.Add(-1)
+			return 1, nil
+		})
+		close(done1)
+	}()
+	<-started1
+	go func() { w.Wait(); close(waited) }()
+	parked := quiesce(150*time.Microsecond, 2*time.Second)
+	if parked {
+		st, _ := goroutineStates()
+		n := 0
+		for _, s := range st {
+			if s == "sync.Cond.Wait" {
+				n++
+			}
+		}
+		parked = n == 1
+	}
+	gate2Closed := false
+	finish := func() {
+		// let everything run to the end; Wait must return once the last worker has gone
+		if !gate2Closed {
+			gate2Closed = true
+			close(gate2)
+		}
+		for _, c := range []chan struct{}{done1, done2, waited} {
+			select {
+			case <-c:
+			case <-time.After(2 * time.Second):
+				hung = true
+				return
+			}
+		}
+	}
+	startCall2 := func() {
+		go func() {
+			w.Call(1, func() (interface{}, error) {
+				running.Add(1)
+				close(started2)
+				<-gate2
+				running.Add(-1)
+				return 2, nil
+			})
+			close(done2)
+		}()
+	}
+	if !parked {
+		close(gate1)
+		startCall2()
+		finish()
+		return false, res, hung
+	}
+	m := &w.mutex
+	waiters := func(n int32) func() bool {
+		return func() bool { s := c14MuState(m); return s&c14MuLocked != 0 && s>>c14MuShift == n }
+	}
+	m.Lock()
+	go func() { m.Lock(); m.Unlock(); close(xdone) }()
+	ok := c14Until(20*time.Millisecond, waiters(1))
+	close(gate1)
+	ok = ok && c14Until(20*time.Millisecond, waiters(2))
+	startCall2()
+	ok = ok && c14Until(20*time.Millisecond, waiters(3))
+	if ok {
+		time.Sleep(1200 * time.Microsecond)
+		m.Unlock()
+		m.Lock() // usually wins against the just woken X
+		ok = c14Until(20*time.Millisecond, func() bool {
+			s := c14MuState(m)
+			return s&c14MuStarving != 0 && s>>c14MuShift == 3
+		})
+		select {
+		case <-xdone: // X got the mutex before the harness re-locked it: no starvation mode, order not forced
+			ok = false
+		default:
+		}
+	}
+	m.Unlock()
+	if ok {
+		select {
+		case <-started2:
+		case <-time.After(2 * time.Second):
+			ok = false // Call#2's function never started: left to finish() (hang detection)
+		}
+	}
+	select {
+	case <-done1: // f1 finished and its Call returned
+	case <-time.After(2 * time.Second):
+		ok = false
+	}
+	if ok && !quiesce(150*time.Microsecond, 2*time.Second) {
+		ok = false
+	}
+	if ok {
+		res[0] = w.Count()
+		select {
+		case <-waited:
+			res[1] = 1
+		default:
+		}
+		res[2] = int(running.Load())
+		ok = res[2] == 1 // f2 started and is held, f1 ended
+	}
+	finish()
+	return ok, res, hung
 }
